@@ -43,12 +43,24 @@ CLAIMED = {
          "Whatever subset of writes completed before a cut, in whatever order, Good holds (C08_cut, C08_every_prefix, C08_fault); the next complete run is "
          "correct (C08_next_run_correct); completed writes whose upstream was settled are not out of date afterwards (C08_no_redo). Process death for file "
          "stores is delegated to C11.", "4/C08"),
+ "C18": ("proof", "Lean 4 proof (conversion to instants is order-isomorphic for every lawful zone; decision = decision on instants) + per-TZ child-process differential",
+         "For every zone satisfying the PEP 495 law and every naive/aware representation, the converted values compare exactly as the instants they denote "
+         "(C18_order), so the regenerated stale condition and the whole stale fold decide as on bare instants (C18_decision, C18_fold_decision, "
+         "C18_zone_independent); CPython's algorithms satisfy the law for one-transition zones (C18_cpython_lawful); counter-models for the pre-fix handling "
+         "(C18_keepNaive_counterexample, C18_fold_counterexample) document fixed finding F3.", "4/C18"),
  "C10": ("proof", "Lean 4 proof (error-bound invariant over generated stop condition) + trace refinement check",
          "running <= workers, pool size <= workers, failures <= k + workers for max_errors = k, no early stop, idle workers can always take ready "
          "items (C10_workers, C10_pool, C10_errors_bound, C10_no_early_stop, C10_none, C10_parallel, C10_parallel_begin).", "4/C10"),
  "C17": ("proof", "Lean 4 proof (interrupt transition in the engine model) + trace refinement check with injected KeyboardInterrupt",
          "After the coordinator's setStop no call begins, for the rest of the run; a running call is only ever changed by its own completion "
          "(C17_no_new, C17_no_new_ever, C17_inflight). Partial: signal delivery window before `stop = True` is runtime behaviour.", "4/C17"),
+}
+NOTES = {
+ "C18": ("Theorems are about Model/Time.lean (zones as offset/decode functions with the PEP 495 round-trip law as an explicit hypothesis structure "
+         "TZ.Lawful, proved to hold for CPython's _mktime/fromtimestamp/astimezone algorithms on every one-transition zone) and the regenerated "
+         "Gen.TimeConv.naiveHandling / Gen.Stale.staleCond. Tie: T1 regenerates both fragments; T2 runs child processes under 6 (thorough: 12) TZ values "
+         "over a 27-way naive/aware representation matrix and instants around DST transitions, comparing real _get_stale_nodes / uberjob.run decisions with "
+         "the decision on bare instants and with the Lean driver. Trusted: CPython's datetime on multi-transition IANA zones (sampled, not proved), libc tz data."),
 }
 PENDING = "check under construction in this build round (model/proofs being written); not claimed yet"
 m = {
@@ -70,6 +82,6 @@ for p in ALL:
             "property_id": p, "quick_cmd": f"./check {p} --tier quick", "thorough_cmd": f"./check {p} --tier thorough",
             "evidence_file": f"evidence/{p}.json", "replay_cmd_template": f"./check {p} --replay {{path}}", "engine": "lean-model",
             "level_claimed": {"category": cat, "text": text, "design_ref": ref},
-            "level_note": CACHE_NOTE if p in ("C03", "C05", "C08") else ENGINE_NOTE, "technique": tech})
+            "level_note": NOTES.get(p, CACHE_NOTE if p in ("C03", "C05", "C08") else ENGINE_NOTE), "technique": tech})
 json.dump(m, open(os.path.join(V, "MANIFEST.json"), "w"), indent=1)
 print("claimed", sorted(CLAIMED))
